@@ -6,8 +6,8 @@ CONSTANTS
   OpsNs = {1, 2, 3, 4, 5, 6, 7, 8, 9, 10, 11, 12, 13, 14, 15, 16, 17, 18, 19, 20, 21, 22, 23, 24, 25, 26}
   AmtLens = {1, 3, 8}
   CltvLens = {1, 2, 3}
-  Metas = {"none", "empty", "big", "fillm", "fill", "fillp"}
-  Customs = {"none", "small", "two", "fill", "fillp"}
+  Metas = {"none", "empty", "fillm", "fill", "fillp"}
+  Customs = {"none", "two", "fill"}
   Blindeds = {0, 1, 2, 3}
   CodeClasses = {"node_temp", "node_perm", "perm", "update", "plain", "recipient"}
   DLens = {0, 7, 254, 255, 300}
